@@ -392,7 +392,9 @@ type tcase struct {
 	Stderr string     `json:"stderr,omitempty"`
 }
 
-var bodies = []string{"", "hello\n", "no newline", "line1\nline2\n", "-- marker --\n", "x\n-- m --\ny\n", "-- last --", "--  --\n", "-- --\n", ">quoted?\n", "é ü\n", "\xff\xfe\n", "a\r\n", "\n", "\n\n", "-- a --\r\n", "tab\there\n", "unquote x\n"}
+var bodies = []string{"", "hello\n", "no newline", "line1\nline2\n", "-- marker --\n", "x\n-- m --\ny\n", "-- last --", "--  --\n", "-- --\n", ">quoted?\n", "é ü\n", "\xff\xfe\n", "a\r\n", "\n", "\n\n", "-- a --\r\n", "tab\there\n", "unquote x\n",
+	// bodies that get quoted (marker line) and whose own lines already begin with '>'
+	"> reply\n> > older\n-- sig --\nbye\n", ">>-- inner --\n>>x\n-- outer --\n>-- inner --\n", ">\n-- m --\n", ">>>\n>-- m --\n-- n --\n"}
 var pathSegs = []string{"a", "b", "sub", "deep", ".hidden", ".git", "c d", "é", "x.txt", "-- n --", "a--b"}
 
 func genTree(r *rand.Rand) []treeFile {
